@@ -46,6 +46,15 @@ CHECKS['C17'] = dict(
     note='Trusted: clang-14 -O1 IR (interpreter-vs-native diff), std::string/operator new intrinsics, GSL shim for the Const members; '
          'exact reals stand in for doubles (the lookup only compares, so rounding enters through the grid values, which are symbolic).',
     design='§3 C17')
+CHECKS['C03'] = dict(
+    text='A.Evolve(H,t), PrepareEvolve(buf,t) and A.Evolve(buf) are executed symbolically for d=2..6 with A, the diagonal generators of '
+         'H and the times symbolic; sin/cos calls become atoms keyed by their argument term and the solver identifies each argument '
+         'with +-(E_j-E_k)t for a level pair (E from the C01-pinned map). With the instantiated lemmas (parity, circle, angle addition) '
+         'z3 decides entry-wise conjugation exp(iHt)A exp(-iHt), preservation of scalar products, the group law t1 then t2 = t1+t2, '
+         't=0 identity (folded) and agreement of the two-step form, on the normal-form residuals.',
+    note='Trusted: as C01; sin/cos are uninterpreted atoms constrained only by the listed true lemmas (so the claim is for exact-real '
+         'evaluation, large |t| argument rounding is outside); H restricted to the diagonal generators as the property states.',
+    design='§3 C03')
 NA_REASON = 'check not built yet (framework under construction; see DESIGN.md)'
 NA = {}
 
